@@ -138,7 +138,11 @@ def compute_impl(dates, floats, workdir, with_file=False, bench=None):
     from qstrader.statistics.tearsheet import TearsheetStatistics
     import qstrader.statistics.performance as perf
     df = pd.DataFrame({'Equity': list(floats)}, index=list(dates))
-    alloc = pd.DataFrame({'EQ:AAA': [0.6] * len(dates), 'EQ:BBB': [0.4] * len(dates)}, index=list(dates))
+    # the allocation table as a session hands it over: no weights before the first rebalance (1-2 leading all-NaN
+    # rows when the curve is long enough) - what is reported about the EQUITY curve must not depend on it
+    lead = 0 if len(dates) < 3 else (1 + len(dates) % 2)
+    alloc = pd.DataFrame({'EQ:AAA': [math.nan] * lead + [0.6] * (len(dates) - lead),
+                          'EQ:BBB': [math.nan] * lead + [0.4] * (len(dates) - lead)}, index=list(dates))
     fn = os.path.join(workdir, 'statistics.json')
     with warnings.catch_warnings():
         warnings.simplefilter('ignore')
